@@ -148,10 +148,10 @@ func judge(r *vh.Run, res *Result, mode string) {
 			wt := res.Topics[t]
 			prov := "initial-partition"
 			switch {
-			case wt.later:
-				prov = "topic-created-later"
 			case int(p) >= wt.initParts:
 				prov = "partition-added-later"
+			case wt.later:
+				prov = "topic-created-later"
 			}
 			path := "regex"
 			if !m.regex {
@@ -219,11 +219,14 @@ func judge(r *vh.Run, res *Result, mode string) {
 
 func TestCheck(t *testing.T) {
 	r := vh.Start(t, "C39")
-	nRT := r.Pick(96, 2400)
-	nVT := r.Pick(120, 3000)
+	nRT := r.Pick(128, 3200)
+	nVT := r.Pick(200, 5000)
 	c41 := os.Getenv("VERIF_C41") != ""
 	if c41 {
 		nRT, nVT = r.Pick(24, 96), 0
+	}
+	if v := os.Getenv("VERIF_C39_N"); v != "" { // debugging aid: "rt,vt"
+		fmt.Sscanf(v, "%d,%d", &nRT, &nVT)
 	}
 	if !e2e.HaveVT {
 		nVT = 0
